@@ -21,6 +21,11 @@
 #include <boost/msm/backmp11/favor_compile_time.hpp>
 #define H_MP11 1
 #endif
+#ifdef H_SERIALIZE
+#define H_HIT (++this->h_hits)
+#else
+#define H_HIT ((void)0)
+#endif
 namespace mpl = boost::mpl;
 namespace msm = boost::msm;
 using msm::front::Row;
